@@ -1,7 +1,7 @@
 (* Model of QSolJulData::from(&EnergyProps, &totradjul): the DB-HE solar-control indicator.
    H_sol;jul comes from the regenerated embedded tables (gen/Tables.v). *)
 From Coq Require Import ZArith NArith QArith Qabs Bool List.
-From CTE Require Import Base.Num Model.BModel Model.Props.
+From CTE Require Import Base.Num Model.BModel Model.Props Model.Geometry.
 From CTEGen Require Import Tables.
 Import ListNotations.
 Local Open Scope Q_scope.
@@ -92,8 +92,20 @@ Fixpoint details_close (a b : list (orient * qdetail)) : bool :=
 Record c10_case := mkC10 {
   c10_zone : N; c10_props : eprops;
   c10_impl : option qsoldata;   (* None: the implementation crashed *)
+  c10_win_geo : list (uuid * Q * Q);   (* the model's own windows (unique ids): tilt and azimuth of their wall *)
   c10_finite : bool;            (* every reported number is finite *)
   c10_roundtrip : bool          (* the indicators serialise to JSON that loads back *) }.
+
+(* the orientation class the solar gains are looked up with is the class of the wall's own tilt and azimuth *)
+Definition class_of (tilt az : Q) : orient :=
+  match tilt_class tilt with SIDE => orient_class az | _ => O_HZ end.
+Definition win_class_ok (p : eprops) (e : uuid * Q * Q) : bool :=
+  match e with (id, tilt, az) =>
+    match find (fun w => N.eqb (fst w) id) (ep_windows p) with
+    | Some w => orient_eqb (np_orient (snd w)) (class_of tilt az)
+    | None => true
+    end
+  end.
 
 Definition agree_C10 (c : c10_case) : N :=
   match QSol_model (c10_zone c) (c10_props c), c10_impl c with
@@ -104,6 +116,7 @@ Definition agree_C10 (c : c10_case) : N :=
     first_fail [
       (9%N, c10_finite c);
       (10%N, c10_roundtrip c);
+      (6%N, forallb (win_class_ok (c10_props c)) (c10_win_geo c));
       (1%N, stol (qs_Q i) (qs_Q m));
       (2%N, stol (qs_q i) (qs_q m));
       (3%N, stol (qs_awp i) (qs_awp m));
